@@ -11,19 +11,19 @@ NOTE = ('A check exiting 0 means "every structural obligation of this property h
         'semantics of the external crates the obligations mention (serde, serde_json, futures, tokio, async-broadcast).')
 
 TECH = {
-    'C01': 'MIR dataflow: def-chain slicing (terminator search on every chain) + guard dominance on the receive path',
+    'C01': 'MIR dataflow over the helper-inlined normal form: def-chain slicing (terminator search on every chain), guard dominance and post-dominance on the receive path, who-may-construct on the end-of-stream error',
     'C02': 'MIR path rules (must-pass-through / at-most-once / who-may-write) on the send path',
     'C03': 'translation validation of the ported serializer against the serde_json source (method-by-method emission skeletons) + const-evaluated escape table + MIR origin tracing of raw fragments',
     'C04': 'serde-shape analysis of the decode target (type-checked ADT + attributes), bypass search over decode instantiations, MIR arm mapping',
     'C05': 'syntax-tree table agreement between encoder, decoder and derive templates (flag key/field pairing, aligned zips, tagged unit variants)',
     'C06': 'symbolic accounting (owed replies as a linear form) + path-sensitive exploration + guard dominance in the reply stream (MIR)',
     'C07': 'coroutine-state lint: locals saved across suspension points, pre-suspension stores, single awaited leaf (MIR + coroutine witnesses)',
-    'C08': 'MIR guard dominance + must-pass-through in the server call handler; imported cancel-safety lint',
+    'C08': 'MIR guard dominance + must-pass-through in the server call handler (private async helpers expanded in place); imported structural clauses of the layers below (inbound / outbound framing, cancel-safety, call-envelope flags, select)',
     'C09': 'early-exit classification, path-sensitive (flag-following) must-pass-through, index/list pairing, lifetime-laundering escape analysis (MIR)',
     'C10': 'ownership-flow (move provenance) + path-sensitive must-pass-through in the server loop (MIR)',
     'C11': 'lifetime-laundering detection + typed taint/escape analysis + who-may-write on the receive buffer (MIR)',
-    'C12': 'sibling agreement of the three proxy generators (syn AST): shared parser/emitter, destructive-attribute rule, evaluated emitter truth table',
-    'C13': 'guard-based bounds engine (index/range sites, inductive cursors) + error-discipline, loop-progress and conservation rules over the parser MIR + abstract interpretation of the name scanners (byte-class / window-relative position domain) in lock-step with the DFA of the grammar rule',
+    'C12': 'sibling agreement of the three proxy generators (syn AST, quote fragments spliced): shared parser/emitter, destructive-attribute rule, evaluated emitter truth table; imported clauses of outbound framing, reply classification and chain accounting',
+    'C13': 'production extraction from the phrase-level parser (syntax tree -> right-linear equations -> regular expressions) with regular-language inclusion between the required minimum and the Varlink grammar + guard-based bounds engine (index/range sites, inductive cursors) + error-discipline, loop-progress and conservation rules over the parser MIR + abstract interpretation of the name scanners (byte-class / window-relative position domain) in lock-step with the DFA of the grammar rule',
     'C14': 'format-template analysis of Display impls (AST) vs parser literal/constructor tables (AST + MIR call graph) + imported scanner-vs-grammar abstract interpretation (names)',
     'C15': 'conversion/rename pairing keyed by resolved accessors (MIR) on emitter syntax, type-table and keyword-table comparison, Ident-unraw lint (MIR)',
     'C16': 'trait-impl table extraction (MIR const bodies + promoted constants) vs mapping table; derive template and declaration-order rules (AST)',
